@@ -141,6 +141,46 @@ CHECKS = {
             'look-ahead must not grow with N.',
             'Any constant look-ahead is accepted (sample sizes are read off the measurements, not hard-coded); '
             'for CSV files pulls are counted at the tabulator Stream.iter boundary.', '3/C06'),
+    'C04': ('fault-lab', 'fault_enumeration',
+            'runtime fault injection: faulty steps raising a chosen exception instance at every position x phase '
+            'x step shape x class, failing sources/handlers/callbacks, sys.monitoring LINE failpoints inside the '
+            'built-in processors; outcome classified by identity of ProcessorError.cause; artifact monitor',
+            'For six representative pipelines covering every built-in processor the fault points of each '
+            '(position, phase) are enumerated; the injected exception must come back as ProcessorError.cause and '
+            'no dump descriptor / zip / stream file / checkpoint positioned after the fault may be committed. '
+            'parallelize error paths run in their own process group under a watchdog.',
+            'Fault points of the explored pipelines are enumerated (classes rotate in quick, full product in '
+            'thorough); failpoints inside a try statement of the library (lexically or in a caller frame) are '
+            'not used. Two parallelize error-path defects are recorded as known findings.', '3/C04'),
+    'C08': ('crash-lab', 'fault_enumeration',
+            'runtime crash injection: fork + I/O event shims on dataflows.processors.stream; kill (os._exit(137)) '
+            'or OSError before every I/O event; downstream step failures; post-crash ndjson reader + recovery '
+            'run compared with the uninterrupted baseline',
+            'Every event index of the recorded I/O trace of a checkpoint-writing run (1..3 resources, 0..101 '
+            'rows, one or two chained checkpoints, stale .active files) is a crash point in two modes; any '
+            'stream.ndjson found must be complete and the next run must equal the baseline and recompute iff '
+            'no complete checkpoint exists.',
+            'Python-level I/O events (an audit hook proves no file-system event bypassed the shims); SIGKILL '
+            'semantics (page cache survives); quick samples traces longer than 60 events, thorough enumerates all.',
+            '3/C08'),
+    'C18': ('sched-lab', 'exploration',
+            'runtime event-log monitor: queue/process/thread proxies (inherited by forked workers) with seeded '
+            'delay injection; offline exactly-once / apply-once / queue-conservation / end-marker-ordering / '
+            'shutdown checker; quiescence detector for deadlocks',
+            'Nine schedule families x 1..4 workers x six predicate patterns x lengths 0..100 (1000 and line-level '
+            'yield injection in thorough) x resource layouts; the merged log of parent threads and worker '
+            'processes is checked offline and the delivered rows are compared with the sequential map.',
+            'Schedules are sampled, not enumerated: evidence reports distinct interleaving signatures and '
+            'both-order observations of racing pairs. A hang without quiescence is inconclusive.', '3/C18'),
+    'C19': ('crash-lab', 'fault_enumeration',
+            'runtime crash injection: fork + I/O event shims on file_dumper / to_path (temp files, chunked copy); '
+            'kill before every I/O event; post-crash: parseable datapackage.json => every listed file exists with '
+            'recorded size and md5',
+            'Every event index of the I/O trace of dump_to_path into a fresh directory (1..3 resources, 0..200 '
+            'rows, csv/json, pretty on/off) is a kill point; the directory is then inspected with independent '
+            'readers.',
+            'Python-level I/O events with copies split into >=3 chunks; quick samples traces longer than 80 '
+            'events, thorough enumerates all.', '3/C19'),
 }
 
 NOT_BUILT_REASON = 'check not built yet in this round (design in DESIGN.md section 3); no claim made'
@@ -170,6 +210,12 @@ def main():
         'engines': [
             {'name': 'pipeline-lab', 'path': 'vlib/lab.py', 'kind_free_text':
              'generated pipelines run on the real library; reference-model and differential oracles'},
+            {'name': 'fault-lab', 'path': 'vlib/faultlab.py', 'kind_free_text':
+             'faulty steps and sys.monitoring failpoints; classification by exception identity'},
+            {'name': 'crash-lab', 'path': 'vlib/crashlab.py', 'kind_free_text':
+             'fork + I/O event shims: kill / raise before every event of a run; post-crash monitors'},
+            {'name': 'sched-lab', 'path': 'vlib/schedlab.py', 'kind_free_text':
+             'queue/process/thread proxies with delay injection, merged event log, offline checker'},
             {'name': 'io-lab', 'path': 'vlib/iolab.py', 'kind_free_text':
              'independent readers (csv/json/zip/sqlite3/md5) over the artifacts the real code wrote'},
         ],
